@@ -4,6 +4,7 @@ import (
 	"encoding/json"
 	"fmt"
 	"os"
+	"os/exec"
 	"path/filepath"
 	"sort"
 	"strings"
@@ -40,6 +41,7 @@ type CheckConfig struct {
 	Seed       int
 	WriteLock  bool
 	Quiet      bool
+	harness    *harnessRun
 }
 
 type funcEvidence struct {
@@ -382,6 +384,13 @@ func RunCheck(cfg CheckConfig) int {
 		}
 		violations = append(violations, f)
 	}
+	// findings about assumed contracts (found by the cross-check harness, not by an obligation) are always listed
+	for name, k := range known {
+		if strings.HasPrefix(name, "assumed:") {
+			knownSeen[name] = true
+			out("KNOWN-FINDING: property=%s %s (%s)", cfg.Property, k.What, name)
+		}
+	}
 	// a listed finding whose obligation now discharges is reported (not an alarm)
 	for name, k := range known {
 		if !knownSeen[name] {
@@ -389,6 +398,16 @@ func RunCheck(cfg CheckConfig) int {
 		}
 	}
 
+	// a concrete failing input is searched for only when something is violated (or, in the thorough tier, as a cross-check)
+	if len(violations) > 0 || cfg.Tier == "thorough" {
+		cfg.harness = runHarness(cfg)
+	}
+	if cfg.Tier == "thorough" && len(violations) == 0 && cfg.harness != nil && len(cfg.harness.Failures) > 0 {
+		// run-time contract failure on code whose obligations all discharged: the generator, a trusted contract or the harness is wrong
+		for _, hf := range cfg.harness.Failures {
+			out("TOOL-ERROR: cross-check: run-time contract failure although every obligation discharged: %s", hf.Message)
+		}
+	}
 	// violations: one line per distinct obligation name
 	seenV := map[string]bool{}
 	nviol := 0
@@ -400,6 +419,9 @@ func RunCheck(cfg CheckConfig) int {
 		nviol++
 		rp := writeReplay(cfg, w, f, violations)
 		suffix := " no-failing-input-found"
+		if hf, _ := matchHarness(cfg.harness, f); hf != nil {
+			suffix = ""
+		}
 		out("VIOLATION property=%s replay=%s obligation=%s reason=%s%s", cfg.Property, rp, f.Name, oneLine(f.Reason), suffix)
 	}
 
@@ -463,6 +485,7 @@ func RunCheck(cfg CheckConfig) int {
 			"vacuity_guards":           map[string]int{"canaries_and_covers": canaries, "not_provable_as_required": canOK},
 			"known_finding_obligations": knownObl,
 			"baseline_obligation_names": len(lock.Properties[cfg.Property]),
+			"cross_check":              crossCheckEvidence(cfg.harness),
 			"explanation":              "every obligation generated from the current source of the functions in this property's cone was sent to the SMT portfolio; 'discharged' counts unsat answers",
 		},
 		"assumptions": translationAssumptions,
@@ -480,6 +503,14 @@ func RunCheck(cfg CheckConfig) int {
 		return 1
 	}
 	return 0
+}
+
+func crossCheckEvidence(hr *harnessRun) any {
+	if hr == nil || !hr.Ran {
+		return "not run in this tier (the run-time contract harness runs in the thorough tier and when an obligation fails)"
+	}
+	return map[string]any{"what": "run-time evaluation of the contracts on enumerated inputs against the real code (decides nothing; cross-checks the generator and the trusted contracts)",
+		"passed": hr.OK, "failures": hr.Failures, "seconds": round3(hr.Seconds)}
 }
 
 func dedupe(xs []string) []string {
@@ -529,6 +560,118 @@ func toolFailure(cfg CheckConfig, evPath string, start time.Time, reason string)
 	return 1
 }
 
+// harnessFailure is a concrete failing input found by the run-time contract harness (/verif/replay).
+type harnessFailure struct {
+	Name    string `json:"obligation"`
+	Message string `json:"message"`
+	Test    string `json:"test"`
+}
+
+type harnessRun struct {
+	Ran      bool
+	Cmd      string
+	Failures []harnessFailure
+	OK       []string
+	Output   string
+	Seconds  float64
+}
+
+// runHarness executes the replay harness against the working tree of cfg.Repo (tests are injected with -overlay).
+func runHarness(cfg CheckConfig) *harnessRun {
+	hr := &harnessRun{}
+	ovPath := filepath.Join(os.TempDir(), fmt.Sprintf("gvc-overlay-%d.json", os.Getpid()))
+	ov := map[string]map[string]string{"Replace": {
+		filepath.Join(cfg.Repo, "markdown", "zz_replay_test.go"): filepath.Join(cfg.VerifDir, "replay", "markdown_replay_test.go"),
+		filepath.Join(cfg.Repo, "zz_replay_test.go"):              filepath.Join(cfg.VerifDir, "replay", "gtree_replay_test.go"),
+	}}
+	data, _ := json.Marshal(ov)
+	if err := os.WriteFile(ovPath, data, 0o644); err != nil {
+		return hr
+	}
+	defer os.Remove(ovPath)
+	args := []string{"test", "-tags", "verif", "-overlay", ovPath, "-vet=off", "-count=1", "-timeout", "300s", "-run", "TestReplay_", "-v", ".", "./markdown"}
+	hr.Cmd = "cd " + cfg.Repo + " && GOFLAGS=-mod=mod GOPROXY=off go " + strings.Join(args, " ") + "   (overlay: " + string(data) + ")"
+	cmd := exec.Command("go", args...)
+	cmd.Dir = cfg.Repo
+	cmd.Env = append(os.Environ(), "GOFLAGS=-mod=mod", "GOPROXY=off")
+	start := time.Now()
+	out, _ := cmd.CombinedOutput()
+	hr.Seconds = time.Since(start).Seconds()
+	hr.Ran = true
+	hr.Output = string(out)
+	cur := ""
+	for _, ln := range strings.Split(string(out), "\n") {
+		t := strings.TrimSpace(ln)
+		if strings.HasPrefix(t, "=== RUN") {
+			cur = strings.TrimSpace(strings.TrimPrefix(t, "=== RUN"))
+		}
+		if i := strings.Index(t, "REPLAY-FAIL "); i >= 0 {
+			rest := t[i+len("REPLAY-FAIL "):]
+			name := rest
+			if j := strings.Index(rest, " "); j >= 0 {
+				name = rest[:j]
+			}
+			hr.Failures = append(hr.Failures, harnessFailure{Name: name, Message: rest, Test: cur})
+		}
+		if i := strings.Index(t, "REPLAY-OK "); i >= 0 {
+			hr.OK = append(hr.OK, t[i+len("REPLAY-OK "):])
+		}
+	}
+	if len(hr.Failures) == 0 && strings.Contains(string(out), "panic:") {
+		hr.Failures = append(hr.Failures, harnessFailure{Name: "panic", Message: "the harness run panicked: " + firstLineWith(string(out), "panic:"), Test: cur})
+	}
+	return hr
+}
+
+// Replay re-runs the run-time contract harness against the current tree and prints what it finds.
+func Replay(repo, verifDir, file string) int {
+	if data, err := os.ReadFile(file); err == nil {
+		var rec map[string]any
+		if json.Unmarshal(data, &rec) == nil {
+			fmt.Printf("replay file %s\n  property:   %v\n  obligation: %v\n  reason:     %v\n", file, rec["property"], rec["obligation"], rec["reason"])
+			if fi, ok := rec["failing_input"].(map[string]any); ok && fi != nil {
+				fmt.Printf("  recorded failing input: %v\n", fi["report"])
+			} else {
+				fmt.Println("  recorded failing input: none (no-failing-input-found)")
+			}
+		}
+	}
+	hr := runHarness(CheckConfig{Repo: repo, VerifDir: verifDir})
+	for _, ok := range hr.OK {
+		fmt.Println("REPLAY-OK", ok)
+	}
+	for _, f := range hr.Failures {
+		fmt.Println("REPLAY-CONFIRMED", f.Message)
+	}
+	if len(hr.Failures) > 0 {
+		return 1
+	}
+	return 0
+}
+
+func firstLineWith(s, sub string) string {
+	for _, ln := range strings.Split(s, "\n") {
+		if strings.Contains(ln, sub) {
+			return strings.TrimSpace(ln)
+		}
+	}
+	return ""
+}
+
+// matchHarness picks the failing input that belongs to a failed obligation: same function first, any other otherwise.
+func matchHarness(hr *harnessRun, f *Failure) (*harnessFailure, string) {
+	if hr == nil || len(hr.Failures) == 0 {
+		return nil, ""
+	}
+	fn := strings.TrimPrefix(f.Func, "tinywasm:")
+	for i := range hr.Failures {
+		if strings.HasPrefix(hr.Failures[i].Name, fn+"/") {
+			return &hr.Failures[i], "exact (same function)"
+		}
+	}
+	return &hr.Failures[0], "related (the input fails a contract evaluated at run time on this tree; the harness passes on the unchanged tree)"
+}
+
 func writeReplay(cfg CheckConfig, w *World, f *Failure, all []*Failure) string {
 	name := strings.NewReplacer("/", "_", "#", "-", "@", "_", ":", "_", " ", "_").Replace(f.Name)
 	rp := filepath.Join(cfg.VerifDir, "replays", cfg.Property+"-"+name+".json")
@@ -540,6 +683,11 @@ func writeReplay(cfg CheckConfig, w *World, f *Failure, all []*Failure) string {
 		"reason":     f.Reason,
 		"failing_input": nil,
 		"note":       "no-failing-input-found: the verifier's back ends return no model over the quantified background; the obligation below passed on the unchanged tree and is not discharged on this one",
+	}
+	if hf, how := matchHarness(cfg.harness, f); hf != nil {
+		rec["failing_input"] = map[string]any{"found_by": "bounded run-time contract search (/verif/replay), executed against the real code of this tree", "match": how, "harness_test": hf.Test, "report": hf.Message}
+		rec["replay_cmd"] = cfg.harness.Cmd
+		rec["note"] = "the obligation below is not discharged on this tree; the failing input was found by executing the real code with the contract evaluated at run time"
 	}
 	var insts []map[string]any
 	for _, g := range all {
